@@ -296,6 +296,19 @@ func c12Corpus() []c12Req {
 		{Kind: "operation", Query: `query A { aab } query B { aac }`, Op: "C"}, {Kind: "operation", Query: `query A { aab } query B { aac }`},
 		{Kind: "operation", Query: `query A { aab } query B { aac }`, Op: "B"},
 	}
+	// one response key selected three times on a level, the later occurrences behind variable-driven directives:
+	// the same document under every assignment, so that a cached plan is reused across assignments in every order
+	for _, dq := range []string{
+		`query($x: Boolean!, $y: Boolean!) { human { name } human @include(if: $x) { pets { name } } human @include(if: $y) { n2: name } }`,
+		`query($x: Boolean!, $y: Boolean!) { pets { name } pets @skip(if: $x) { ... on Dog { barks } } pets @skip(if: $y) { ... on Cat { meows } } }`,
+		`query($x: Boolean!, $y: Boolean!) { a: human { name } a: human @include(if: $x) { pets { name } } a: human @skip(if: $y) { pets { ... on Dog { barks } } } aab @include(if: $x) }`,
+	} {
+		for _, xv := range []bool{true, false} {
+			for _, yv := range []bool{false, true} {
+				rs = append(rs, c12Req{Kind: "dyn-directive", Query: dq, Vars: map[string]interface{}{"x": xv, "y": yv}})
+			}
+		}
+	}
 	// every executable request class in mutation form as well (serial execution, depth-first forcing)
 	both := map[string]bool{"valid": true, "exec-errors": true, "args-mutated": true, "bad-literal": true, "suggest-field": true, "suggest-arg": true}
 	n := len(rs)
